@@ -126,6 +126,36 @@ theorem derived_recomputed (C : Ctx) (rec : Oracle) (i : Inst) (name : String) (
   rw [derived_read h1 hf, derived_read h2 hf]
   exact invoke_state_only rec _ _ _ _ c1 c2 hst
 
+/-- derived attributes whose action NAVIGATES (or reads other instances): a read that follows a change of the link store
+    or of any attribute — `relate`, `unrelate`, `x.attr = v`, any store transformer `g` that succeeds — is the
+    evaluation of the body in the CHANGED store; nothing of an earlier evaluation is used -/
+theorem derived_after_store_change (C : Ctx) (rec : Oracle) (i : Inst) (name : String) (f : Callable)
+    (g : State → Except Err State) (c : Cfg) (st' : State)
+    (hreg : regHit c.fr i name = false) (hf : findDerived C i.cls name = some f) (hg : g c.st = .ok st') :
+    (do M.modifySt g; readField C rec i name) c =
+      invoke rec (.derived i name) f.body [] (.inst i) { c with st := st' } := by
+  have hm : M.modifySt g c = some (.ok ((), { c with st := st' })) := by
+    unfold M.modifySt; rw [hg]
+  rw [bind_ok hm]
+  exact derived_read (c := { c with st := st' }) hreg hf
+
+/-- … in particular after the three statements that change what a navigation or a partner read delivers -/
+theorem derived_after_relate_unrelate_assign (C : Ctx) (rec : Oracle) (i : Inst) (name : String) (f : Callable) (c : Cfg)
+    (hreg : regHit c.fr i name = false) (hf : findDerived C i.cls name = some f) (x y : Inst) (rel ph attr : String)
+    (v : Val) (st' : State) :
+    (relate C x y rel ph c.st = .ok st' →
+      (do M.modifySt (relate C x y rel ph); readField C rec i name) c =
+        invoke rec (.derived i name) f.body [] (.inst i) { c with st := st' }) ∧
+    (unrelate C x y rel ph c.st = .ok st' →
+      (do M.modifySt (unrelate C x y rel ph); readField C rec i name) c =
+        invoke rec (.derived i name) f.body [] (.inst i) { c with st := st' }) ∧
+    (setAttr C x attr v c.st = .ok st' →
+      (do M.modifySt (setAttr C x attr v); readField C rec i name) c =
+        invoke rec (.derived i name) f.body [] (.inst i) { c with st := st' }) :=
+  ⟨fun h => derived_after_store_change C rec i name f _ c st' hreg hf h,
+   fun h => derived_after_store_change C rec i name f _ c st' hreg hf h,
+   fun h => derived_after_store_change C rec i name f _ c st' hreg hf h⟩
+
 /-! ## enumerations and constants -/
 
 /-- `mk_enum` numbers the enumerators in their MODELED order (the R56 chain), whatever the order of the S_ENUM rows
@@ -217,6 +247,37 @@ example : enumOrder [⟨12, "blue", 11⟩, ⟨10, "red", 0⟩, ⟨11, "green", 1
 /-- the hypotheses of `enum_positions` are satisfiable: these rows are a permutation of the modeled chain -/
 example : ([⟨12, "blue", 11⟩, ⟨10, "red", 0⟩, ⟨11, "green", 10⟩] : List EnumRow).Perm
     (mkRows 0 [(10, "red"), (11, "green"), (12, "blue")]) := by
+  decide +kernel
+
+/-- a derived attribute whose action navigates: `B.d`:
+    `select one a related by self->A[R1]; self.d = 0; if (not_empty a) self.d = a.n * 2; end if;`
+    read before any link (0), after `relate` (2·3), after an assignment to the partner (2·7), after `unrelate` (0) -/
+def C2 : Ctx :=
+  { classes := [⟨"A", [⟨"n", .integer, false⟩]⟩, ⟨"B", [⟨"n", .integer, false⟩, ⟨"A_ID", .uniqueId, true⟩]⟩],
+    assocs := [{ rel := "R1", src := "B", tgt := "A", srcPhrase := "", tgtPhrase := "", srcMany := true, tgtMany := false,
+                 srcKeys := ["A_ID"], tgtKeys := ["ID"] }],
+    callables := [
+      ⟨.derived "B", "d", [.selectRelated false "a" .self [⟨"A", "R1", ""⟩] none,
+                           .assignField .self "d" (.int 0),
+                           .ifS (.un .notEmpty (.var "a"))
+                             [.assignField .self "d" (.bin .mul (.field (.var "a") "n") (.int 2))] [] none]⟩ ] }
+
+def st2 : State :=
+  { live := fun c => if c = "A" ∨ c = "B" then [0] else [], next := fun c => if c = "A" ∨ c = "B" then 1 else 0,
+    attr := fun _ _ => .int 3, links := fun _ => [], nextId := 1 }
+
+example : valOf (runFunction C2 20 [
+      .selectFrom false "b" "B" none, .selectFrom false "a" "A" none,
+      .assignVar "x1" (.field (.var "b") "d"),
+      .relate "b" "a" "R1" "",
+      .assignVar "x2" (.field (.var "b") "d"),
+      .assignField (.var "a") "n" (.int 7),
+      .assignVar "x3" (.field (.var "b") "d"),
+      .unrelate "b" "a" "R1" "",
+      .assignVar "x4" (.field (.var "b") "d"),
+      .ret (some (.bin .add (.bin .add (.bin .mul (.var "x1") (.int 1000000)) (.bin .mul (.var "x2") (.int 10000)))
+                            (.bin .add (.bin .mul (.var "x3") (.int 100)) (.var "x4"))))]
+    [] st2) = some (.int (0 * 1000000 + 6 * 10000 + 14 * 100 + 0)) := by
   decide +kernel
 
 end PyxProps.C15
